@@ -1586,3 +1586,21 @@ PROPS['C11'] = dict(
     trusted_base=COMMON_TRUST,
     assumptions=['bitstream-io read_to_vec / LimitedReader semantics as modelled by takeBytes (EOF when the declared size exceeds what is left)'],
 )
+
+PROPS['C10'] = dict(
+    module='FlacModel.Props.C10',
+    theorems=['Flac.C10.update_error_untouched', 'Flac.C10.update_preserves_frames', 'Flac.C10.update_inplace_length', 'Flac.C10.update_inplace_readback',
+              'Flac.C10.update_rebuilt_shape', 'Flac.C10.history_preserves_frames', 'Flac.C10.adjust_writeBlocks', 'Flac.C10.readBlocks_used_le'],
+    components=[UpdateHist()],
+    rule='histories of 1-4 successive update_file calls on files with zero, one, two or three PADDING blocks (also of size 0), each edit a script over the public BlockList API (replace/remove the application block, '
+         'comments, pictures incl. duplicate icons that fail validation, set/add/remove padding, change STREAMINFO, fail in the callback) with sizes sweeping -8..+8 bytes around the first padding size; in the thorough tier '
+         'also padding and pictures at the 24-bit limit; every step reports in-place / rebuilt / error, the file length after each step and the final bytes',
+    claim='For EVERY file, edit callback and history: update_error_untouched (callback or validation failure: file byte-for-byte untouched); update_preserves_frames / history_preserves_frames (bytes from the first frame onward '
+          'unchanged after any sequence of successful updates); update_inplace_length (in-place => same length); update_inplace_readback (in-place => the blocks read back are the edited list with the first PADDING grown/shrunk by '
+          'the size difference, occupying exactly the old region; uses C11.blocklist_roundtrip); update_rebuilt_shape (rebuilt => new blocks ++ identical frames). adjust_writeBlocks: resizing the first padding moves the '
+          'output length by exactly the difference, for any list.',
+    note='The decoded PCM is a function of STREAMINFO and the frame bytes (C03), so identical frame bytes give identical PCM whenever the edit keeps STREAMINFO; edits that rewrite STREAMINFO are exercised by the component only. '
+         'update_file is modelled on byte lists (Counter/BufReader/BufWriter plumbing is modelled, not verified; the flush of the in-place path is C13).',
+    trusted_base=COMMON_TRUST,
+    assumptions=['the edit callback yields values the public types admit (blockWf) for the read-back theorem'],
+)
